@@ -32,6 +32,13 @@ def _base_configs():
     c.append(dict(tag="heat-cool", phases=[ph], D=1e-16, se=1e-5, temp=("array", [0, H(100.0), H(200.0)], [1000, 1004, 1000]), calls=[(200.0, 0.005)],
                   iter="euler", constraints=dict(maxNonIsothermalDT=10)))
     c.append(dict(tag="ramp-function", phases=[ph], D=1e-16, se=1e-5, temp=("function", [0, H(300.0)], [1000, 990]), calls=[(300.0, 0.01)], iter="euler"))
+    # the second impingement-rate option of binary systems (setBetaBinary(2)), isothermal, two phases and on a ramp
+    c.append(dict(tag="beta2-iso", phases=[ph], D=1e-16, beta=2, calls=[(100.0, 0.02)], iter="euler"))
+    c.append(dict(tag="beta2-two-phases-rk4", phases=[ph, dict(name="gamma", gamma=0.055, xe0=0.006, xb=0.2)], D=1e-16, beta=2, calls=[(60.0, 0.02)], iter="rk4"))
+    c.append(dict(tag="beta2-ramp", phases=[ph], D=1e-16, se=1e-5, beta=2, temp=("array", [0, H(300.0)], [1000, 1010]), calls=[(300.0, 0.01)], iter="euler"))
+    # a ramp during which the grid is re-meshed again and again (every re-mesh rebuilds the table and restarts the temperature bookkeeping)
+    c.append(dict(tag="ramp-with-remeshes", phases=[ph], D=1e-16, se=1e-5, temp=("function", [0, H(1500.0)], [1000, 1030]), calls=[(1500.0, 0.02)], iter="euler", cap=700))
+    c.append(dict(tag="cooling-with-remeshes", phases=[ph], D=1e-16, se=1e-5, temp=("array", [0, H(1500.0)], [1000, 975]), calls=[(1500.0, 0.02)], iter="euler", cap=700))
     c.append(dict(tag="fast-ramp-rk4", phases=[ph], D=1e-16, se=1e-5, temp=("array", [0, H(100.0)], [1000, 1050]), calls=[(100.0, 0.02)], iter="rk4"))
     c.append(dict(tag="dissolution", phases=[ph], D=1e-16, x0=0.004, load=[(4e-10, 8e-10, 1e18)], calls=[(50.0, 0.02), (50.0, 0.02)], iter="euler"))
     c.append(dict(tag="fixed-grid", phases=[ph], D=1e-16, pbm=(1e-10, 1e-9, 60, 30, 90, False), calls=[(300.0, 0.02)], iter="euler"))
